@@ -395,6 +395,75 @@ def skeletons(repo):
     return out
 
 
+# ------------------------------------------------------------------------------------------------ reach summary
+def reach(repo):
+    """For EVERY operation handler dispatched by _process_operation (not only the modelled ones): the set of things
+    it can reach, through any chain of helper methods of the class - CryptographyEngine methods, object lookups (with
+    the policy operation), listings, assignments to `.state`, row deletions.  A new path from any handler into the crypto
+    engine or to another stored object (e.g. Register starting to use a stored key) changes this table.  Sets, closed
+    under helper calls, so moving code into or out of a helper changes nothing."""
+    src = (Path(repo) / 'kmip' / 'services' / 'server' / 'engine.py').read_text()
+    tree = ast.parse(src)
+    cls = [n for n in tree.body if isinstance(n, ast.ClassDef) and n.name == 'KmipEngine'][0]
+    funcs = {n.name: n for n in cls.body if isinstance(n, ast.FunctionDef)}
+    direct, calls = {}, {}
+    for name, f in funcs.items():
+        d, c = set(), set()
+        for n in ast.walk(f):
+            if isinstance(n, ast.Call) and isinstance(n.func, ast.Attribute):
+                fn = n.func
+                if isinstance(fn.value, ast.Attribute) and fn.value.attr == '_cryptography_engine':
+                    d.add('crypto ' + fn.attr)
+                elif isinstance(fn.value, ast.Name) and fn.value.id == 'self' and fn.attr in funcs:
+                    if fn.attr == '_get_object_with_access_controls':
+                        if len(n.args) != 2:
+                            raise ValueError('%s: unexpected lookup call %s' % (name, norm(n)))
+                        d.add('lookup as ' + norm(n.args[1]))
+                    elif fn.attr == '_list_objects_with_access_controls':
+                        d.add('list as ' + norm(n.args[0]) if n.args else 'list')
+                    else:
+                        c.add(fn.attr)
+                elif fn.attr == 'delete' and not n.args and 'query' in norm(fn.value):
+                    d.add('delete row')
+            elif isinstance(n, ast.Attribute) and n.attr == '_cryptography_engine' and isinstance(n.ctx, ast.Load):
+                pass
+            if isinstance(n, (ast.Assign, ast.AugAssign)):
+                for t in (n.targets if isinstance(n, ast.Assign) else [n.target]):
+                    if isinstance(t, ast.Attribute) and t.attr == 'state':
+                        d.add('set state ' + norm(n.value))
+            if isinstance(n, ast.Call) and isinstance(n.func, ast.Name) and n.func.id in ('setattr', 'getattr') and n.args \
+                    and any(isinstance(a, ast.Constant) and a.value in ('state', '_cryptography_engine') for a in n.args):
+                raise ValueError('%s: reflective access to state / crypto engine: %s' % (name, norm(n)))
+        direct[name], calls[name] = d, c
+    # the crypto engine must not be handed around (aliasing would hide calls)
+    for name, f in funcs.items():
+        for n in ast.walk(f):
+            if isinstance(n, ast.Attribute) and n.attr == '_cryptography_engine':
+                parent_ok = False
+                for m in ast.walk(f):
+                    if isinstance(m, ast.Attribute) and m.value is n:
+                        parent_ok = True
+                    if isinstance(m, ast.Assign) and any(t is n for t in m.targets) and name == '__init__':
+                        parent_ok = True
+                if not parent_ok:
+                    raise ValueError('%s: the crypto engine object is used other than by calling a method on it' % name)
+
+    def closure(name, seen):
+        if name in seen:
+            return set()
+        seen.add(name)
+        out = set(direct[name])
+        for c in calls[name]:
+            out |= closure(c, seen)
+        return out
+    if '_process_operation' not in funcs:
+        raise ValueError('_process_operation not found')
+    handlers = sorted(c for c in calls['_process_operation'] if c.startswith('_process_'))
+    if direct['_process_operation'] or not handlers:
+        raise ValueError('_process_operation has an unexpected shape')
+    return [(h, sorted(closure(h, set()))) for h in handlers]
+
+
 def generate(repo):
     sk = skeletons(repo)
     out = ['(* GENERATED from kmip/services/server/engine.py by translate/gen_lifecycle.py - do not edit *)',
@@ -405,6 +474,9 @@ def generate(repo):
         items.append('  (%s, [\n    %s])' % (q(h), ';\n    '.join(q(e) for e in evs)))
     out.append(';\n'.join(items))
     out.append('].')
+    out += ['', 'Definition reach : list (string * list string) := [']
+    out.append(';\n'.join('  (%s, [%s])' % (q(h), '; '.join(q(e) for e in evs)) for h, evs in reach(repo)))
+    out.append('].')
     return {'LifecycleGuards.v': '\n'.join(out) + '\n'}
 
 
@@ -414,3 +486,6 @@ if __name__ == '__main__':
         print(h)
         for e in evs:
             print('   ', e)
+    print('REACH')
+    for h, evs in reach(sys.argv[1] if len(sys.argv) > 1 else '/repo'):
+        print('   ', h, evs)
